@@ -31,6 +31,54 @@ func checkC10(c *Ctx) {
 	r.Rule("C10.b", "OpNotEqual = not(OpEqual(p0, p1))", 1)
 	r.Rule("C10.c", "`=` and `<>` are routed to frt.OpEqual / frt.OpNotEqual and both operands get the same type", 3)
 
+	// (d) go-cmp calls a type's own Equal method instead of comparing structurally: no type a Folang value can have defines one
+	r.Rule("C10.d", "no Equal method exists on any type of the run-time libraries, and the compiler emits only the marker and String methods on generated types (go-cmp would use an Equal method in place of structural comparison)", 8)
+	for _, dir := range []string{"pkg/frt", "pkg/slice", "pkg/dict", "pkg/strings", "pkg/buf", "pkg/sys"} {
+		lm, lp, _ := libProg(c, dir)
+		if lm == nil {
+			continue
+		}
+		var eq []string
+		for _, fn := range lp.Funcs {
+			if fn.Decl != nil && fn.Decl.Recv != nil && fn.Decl.Name.Name == "Equal" {
+				eq = append(eq, funcLabel(fn.Decl))
+			}
+		}
+		r.Check(len(eq) == 0, "C10.d", dir, "no-Equal-method", dir, "no type of "+dir+" has an Equal method",
+			"method(s) "+strings.Join(eq, ", ")+": cmp.Equal calls a type's Equal method instead of comparing its contents, so `=` on values of this type (and on anything containing them) is whatever that method says")
+	}
+	if f := c.LoadFC("fc"); f != nil {
+		var methodPins []pin
+		for _, p := range c03Pins {
+			switch p.fn {
+			case "csToConformMethod", "udCSConformMethods", "csToStringerMethod", "udCSStringerMethods":
+				methodPins = append(methodPins, p)
+			}
+		}
+		c.checkPins(f, "C10.d", methodPins)
+		// the emitter writes the text "func (" only in those two method emitters
+		var others []string
+		for _, fn := range f.Prog.Funcs {
+			if !fn.Generated || fn.Name == "csToConformMethod" || fn.Name == "csToStringerMethod" {
+				continue
+			}
+			has := false
+			ir.WalkFunc(fn, func(t ir.Term) bool {
+				if lit, ok := t.(*ir.Lit); ok && strings.Contains(lit.Val, "func (") && strings.Contains(lit.Val, ") ") && !strings.HasPrefix(strings.TrimSpace(lit.Val), "(func") {
+					// a method header has a receiver list directly after func; function literals are "(func (" / "func ("+params
+					if strings.HasPrefix(strings.TrimSpace(lit.Val), "func (v ") || strings.HasPrefix(strings.TrimSpace(lit.Val), "func (") && strings.Contains(lit.Val, ") Equal") {
+						has = true
+					}
+				}
+				return true
+			})
+			if has {
+				others = append(others, fn.Name)
+			}
+		}
+		r.Check(len(others) == 0, "C10.d", "fc", "method-emitters", "fc", "only csToConformMethod and csToStringerMethod emit method declarations", "method declarations are also emitted by "+strings.Join(others, ", "))
+	}
+
 	m, prog, n := libProg(c, "pkg/frt")
 	if m == nil {
 		return
